@@ -368,3 +368,274 @@ func c12NewLinCtx(p *Prog, fn, pl *ssa.Function) *c12LinCtx {
 	cx.exact = nStores > 0 && nStores == nExact
 	return cx
 }
+
+// ---------------------------------------------------------------------------------------------------------------
+// Where the translation of incoming links stands (C12.1, C12.5 layout.connections).
+//
+// The obligations are about one piece of code - the loop that turns every incoming link of every neuron of a list
+// into `biases[target] += weight` or a FastNetworkLink - and about the lists, the bias array and the id->index map
+// FastNetworkSolver runs it on.  In the pinned tree the loop is the body of the method
+// Network.processIncomingConnections and the inputs are its parameters.  A refactoring may turn the method (which
+// does not use its receiver) into a function, rename it, or write its body out in FastNetworkSolver; the normaliser
+// expands every call of a function the pinned tree does not have, so in all these cases the loop stands in
+// FastNetworkSolver itself.  c12Xlate names the function that holds the loop and says which values play the three
+// roles there: parameters 1, 2, 3 of the pinned method, or - in place - the bias array FastNetworkSolver hands to the
+// solver constructor and the lookup map it had processList fill (value identity), the list being whatever slice of
+// neurons the loop ranges over (recorded per instance and reported as the translated list).
+
+type c12Site struct {
+	list, biases, lookup ssa.Value
+	pos                  token.Pos
+}
+
+type c12Xlate struct {
+	fn         *ssa.Function
+	tm         *Termer
+	inPlace    bool
+	isList     func(t *Term) bool
+	isBiases   func(t *Term) bool
+	isLookup   func(t *Term) bool
+	biasStores []*ssa.Store
+	linkAllocs []*ssa.Alloc
+	sites      []c12Site // one per list FastNetworkSolver translates
+}
+
+func c12StripCT(v ssa.Value) ssa.Value {
+	for {
+		ct, ok := v.(*ssa.ChangeType)
+		if !ok {
+			return v
+		}
+		v = ct.X
+	}
+}
+
+// c12ListElemId: t == L[i].Id for a list L accepted by isList and a non-constant index i. Returned are the terms of L and i.
+func c12ListElemId(t *Term, isList func(*Term) bool) (list, idx *Term, ok bool) {
+	if t == nil || t.Op != "field" || t.Name != "Id" || len(t.Args) != 1 {
+		return nil, nil, false
+	}
+	e := t.Args[0]
+	if e.Op != "elem" || len(e.Args) < 2 || e.Args[1].Op == "const" || !isList(e.Args[0]) {
+		return nil, nil, false
+	}
+	return e.Args[0], e.Args[1], true
+}
+
+// linkFieldStores: the stores that initialise the fields of the FastNetworkLink allocated by la.
+func c12LinkFieldStores(la *ssa.Alloc) map[string][]*ssa.Store {
+	out := map[string][]*ssa.Store{}
+	for _, ref := range *la.Referrers() {
+		if fa, ok := ref.(*ssa.FieldAddr); ok {
+			for _, r2 := range *fa.Referrers() {
+				if st, ok := r2.(*ssa.Store); ok && st.Addr == ssa.Value(fa) {
+					name := fieldOf(fa.X.Type(), fa.Field).Name()
+					out[name] = append(out[name], st)
+				}
+			}
+		}
+	}
+	return out
+}
+
+func c12FindXlate(p *Prog) *c12Xlate {
+	fns := p.Func(PkgN, "Network.FastNetworkSolver")
+	x := &c12Xlate{}
+	pic := p.FuncOpt(PkgN, "Network.processIncomingConnections")
+	var biasesV, lookupV ssa.Value
+	if pic != nil {
+		x.fn, x.tm = pic, NewTermer(pic)
+		x.isList = func(t *Term) bool { return isParamIdx(t, 1) }
+		x.isBiases = func(t *Term) bool { return isParamIdx(t, 2) }
+		x.isLookup = func(t *Term) bool { return isParamIdx(t, 3) }
+	} else {
+		// in place: the roles are fixed by what FastNetworkSolver does with the arrays afterwards / before
+		x.fn, x.tm, x.inPlace = fns, NewTermer(fns), true
+		if cs := CallsTo(fns, p.Func(PkgN, "NewFastModularNetworkSolver")); len(cs) == 1 {
+			biasesV = c12StripCT(cs[0].Common().Args[6])
+		}
+		if cs := CallsTo(fns, p.Func(PkgN, "processList")); len(cs) > 0 {
+			lookupV = c12StripCT(cs[0].Common().Args[3])
+		}
+		if biasesV == nil || lookupV == nil {
+			panic(anchorMissing{"function " + short(PkgN) + ".Network.processIncomingConnections"})
+		}
+		x.isList = func(t *Term) bool {
+			if t == nil || t.V == nil {
+				return false
+			}
+			sl, ok := t.V.Type().Underlying().(*types.Slice)
+			if !ok {
+				return false
+			}
+			n, ok := deref(sl.Elem()).(*types.Named)
+			return ok && n.Obj().Name() == "NNode"
+		}
+		x.isBiases = func(t *Term) bool { return t != nil && t.V != nil && c12StripCT(t.V) == biasesV }
+		x.isLookup = func(t *Term) bool { return t != nil && t.V != nil && c12StripCT(t.V) == lookupV }
+	}
+	Instrs(x.fn, func(_ *ssa.BasicBlock, _ int, in ssa.Instruction) {
+		switch i := in.(type) {
+		case *ssa.Store:
+			if ia, ok := i.Addr.(*ssa.IndexAddr); ok && x.isBiases(x.tm.Of(ia.X)) {
+				x.biasStores = append(x.biasStores, i)
+			}
+		case *ssa.Alloc:
+			if n, ok := deref(i.Type()).(*types.Named); ok && n.Obj().Name() == "FastNetworkLink" {
+				x.linkAllocs = append(x.linkAllocs, i)
+			}
+		}
+	})
+	if x.inPlace && len(x.biasStores)+len(x.linkAllocs) == 0 {
+		// neither the method nor its body: the translation is gone
+		panic(anchorMissing{"function " + short(PkgN) + ".Network.processIncomingConnections"})
+	}
+	// the lists FastNetworkSolver runs the loop on
+	add := func(list, biases, lookup ssa.Value, pos token.Pos) {
+		if elems, ok := c12RangedLiteral(fns, list); ok {
+			for _, e := range elems {
+				x.sites = append(x.sites, c12Site{e, biases, lookup, pos})
+			}
+			return
+		}
+		x.sites = append(x.sites, c12Site{list, biases, lookup, pos})
+	}
+	if !x.inPlace {
+		for _, c := range CallsTo(fns, pic) {
+			a := c.Common().Args
+			add(a[1], a[2], a[3], c.Pos())
+		}
+	} else {
+		for _, la := range x.linkAllocs {
+			// the list of this instance: TargetIndex = lookup[L[i].Id]
+			for _, st := range c12LinkFieldStores(la)["TargetIndex"] {
+				t := x.tm.Of(st.Val)
+				if t.Op == "lookup" && x.isLookup(t.Args[0]) {
+					if l, _, ok := c12ListElemId(t.Args[1], x.isList); ok {
+						add(l.V, biasesV, lookupV, la.Pos())
+					}
+				}
+			}
+		}
+	}
+	return x
+}
+
+// c12RangedLiteral: v is the element lit[k] of a slice literal lit = []T{e0, .., eN-1}, read at the counter k of a loop
+// that ranges over the whole literal: k = 0, 1, .., N-1, the loop being left before the end only by returning an
+// error.  The literal is built once (every element stored exactly once, before the loop) and is used for nothing but
+// len and element reads, so lit[k] is e_k.  Returned are e0 .. eN-1: what is done with v in the loop body is done
+// with each of them, in this order.
+func c12RangedLiteral(fn *ssa.Function, v ssa.Value) ([]ssa.Value, bool) {
+	ld, ok := c12StripCT(v).(*ssa.UnOp)
+	if !ok || ld.Op != token.MUL {
+		return nil, false
+	}
+	ia, ok := ld.X.(*ssa.IndexAddr)
+	if !ok {
+		return nil, false
+	}
+	sl, ok := ia.X.(*ssa.Slice)
+	if !ok || sl.Low != nil || sl.High != nil || sl.Max != nil {
+		return nil, false
+	}
+	al, ok := sl.X.(*ssa.Alloc)
+	if !ok {
+		return nil, false
+	}
+	at, ok := deref(al.Type()).Underlying().(*types.Array)
+	if !ok || at.Len() <= 0 || at.Len() > 64 {
+		return nil, false
+	}
+	n := int(at.Len())
+	elems := make([]ssa.Value, n)
+	for _, ref := range *al.Referrers() {
+		switch r := ref.(type) {
+		case *ssa.Slice:
+			if r != sl {
+				return nil, false
+			}
+		case *ssa.IndexAddr:
+			k, isK := constInt(r.Index)
+			if !isK || k < 0 || int(k) >= n || elems[k] != nil || len(*r.Referrers()) != 1 {
+				return nil, false
+			}
+			st, isSt := (*r.Referrers())[0].(*ssa.Store)
+			if !isSt || st.Addr != ssa.Value(r) || !st.Block().Dominates(ld.Block()) {
+				return nil, false
+			}
+			elems[k] = st.Val
+		case *ssa.DebugRef:
+		default:
+			return nil, false
+		}
+	}
+	for _, e := range elems {
+		if e == nil {
+			return nil, false
+		}
+	}
+	// the slice is only measured and read
+	isLen := func(x ssa.Value) bool {
+		c, ok := x.(*ssa.Call)
+		if !ok || len(c.Call.Args) != 1 || c.Call.Args[0] != ssa.Value(sl) {
+			return false
+		}
+		b, ok := c.Call.Value.(*ssa.Builtin)
+		return ok && b.Name() == "len"
+	}
+	for _, ref := range *sl.Referrers() {
+		switch r := ref.(type) {
+		case *ssa.Call:
+			if !isLen(r) {
+				return nil, false
+			}
+		case *ssa.IndexAddr:
+			for _, r2 := range *r.Referrers() {
+				if u, ok := r2.(*ssa.UnOp); !ok || u.Op != token.MUL {
+					return nil, false
+				}
+			}
+		case *ssa.DebugRef:
+		default:
+			return nil, false
+		}
+	}
+	// k counts 0 .. N-1
+	if !c12CountsTo(fn, ld.Block(), ia.Index, func(b ssa.Value) bool { return isLen(b) || IsConstIntValue(b, int64(n)) }) {
+		return nil, false
+	}
+	l := InnermostLoop(Loops(fn), ld.Block())
+	if l == nil {
+		return nil, false
+	}
+	// the stores precede the loop
+	for _, ref := range *al.Referrers() {
+		if r, ok := ref.(*ssa.IndexAddr); ok && l.Blocks[r.Block()] {
+			return nil, false
+		}
+	}
+	// left early only by returning an error
+	for b := range l.Blocks {
+		if b == l.Header {
+			continue
+		}
+		for _, s := range b.Succs {
+			if l.Blocks[s] {
+				continue
+			}
+			ret, isRet := s.Instrs[len(s.Instrs)-1].(*ssa.Return)
+			if !isRet || len(ret.Results) == 0 {
+				return nil, false
+			}
+			last := ret.Results[len(ret.Results)-1]
+			if !types.Identical(last.Type(), types.Universe.Lookup("error").Type()) {
+				return nil, false
+			}
+			if c, isC := last.(*ssa.Const); isC && c.Value == nil {
+				return nil, false
+			}
+		}
+	}
+	return elems, true
+}
